@@ -329,7 +329,8 @@ def _bsm_wrapper(net, branch_pit, node_pit, heat_mode):
 
 def _fin_stub(net, niter, residual_norm, nonlinear_method, errors, tols, tol_res, vals_old,
               solver_vars, pit_names, filtered):
-    net.converged = True      # verdict assumed here; the verdict logic itself is C05's subject
+    # verdict assumed here (the verdict logic itself is C05's subject); histories can force a failure
+    net.converged = not getattr(CTX, "force_fail", False)
 
 
 def _assume_wrapper(f, value):
@@ -366,6 +367,7 @@ def install(numba_pyfunc=False, force_verdict=True, symbolic_constants=True):
     CTX.sym_tag = ""
     CTX.pre_solve_hook = None
     CTX.havoc_xform = None
+    CTX.force_fail = False
     CTX.x_xform = None
     CTX.name_map = None
     return patched, ass
